@@ -780,6 +780,82 @@ fn deep_world_phase(run: &Run) {
 		drop(chain);
 		let _ = std::fs::remove_dir_all(&dir);
 	}
+	// ---- a fork that leaves the chain MORE than 50 blocks below the head (a node treats blocks that far below its
+	// head specially when it already has them; a competing fork it has never seen must still be followed): 60 empty
+	// blocks from the trunk block at height 47, two more than the rest of the trunk, so the fork's tip is the unique
+	// maximum. Delivered to a copy of the prepared node parent-first, and headers-first in sync batches.
+	{
+		let fp = trunk[46].hash;
+		let mut d_blocks = vec![];
+		let mut cur = fp;
+		for i in 0..62 {
+			let b = mk_block(&mut h, &cur, &[], 10, if i == 0 { "D1_first_block_of_a_fork_60_below_the_head" } else { "D_empty" });
+			cur = b.hash;
+			d_blocks.push(b);
+		}
+		let d_tip = cur;
+		let commits = h.all_commits();
+		for (name, headers_first) in [("deep_fork_parent_first", false), ("deep_fork_header_batches_first", true)] {
+			let dir = sc.sub(name);
+			let _ = std::process::Command::new("cp").arg("-r").arg(&base).arg(&dir).status();
+			let chain = match open_chain_with(&dir, &h.genesis, Arc::new(grin_chain::types::NoopAdapter {}), false) {
+				Ok(c) => c,
+				Err(e) => {
+					run.inconclusive(&format!("deep world: copy of the prepared node could not be opened: {}", e));
+					continue;
+				}
+			};
+			let replay = json!({"phase": "deep_world", "order": name, "fork_point_height": 47, "fork_blocks": d_blocks.len(), "trunk_height": trunk.len()});
+			let sig = format!("C03;deep_world;order={}", name);
+			let mut ok = true;
+			if headers_first {
+				for chunk in d_blocks.chunks(32) {
+					let hs: Vec<BlockHeader> = chunk.iter().map(|b| b.block.header.clone()).collect();
+					let sh: Tip = chain.header_head().unwrap();
+					if let Err(e) = chain.sync_block_headers(&hs, sh, opts) {
+						run.violation(&format!("{};valid_header_batch_refused;{}", sig, short_err(&e)), &format!("{:?}", e), replay.clone());
+						ok = false;
+						break;
+					}
+				}
+			}
+			for b in &d_blocks {
+				if !ok {
+					break;
+				}
+				run.count("deep_world.deliveries", 1);
+				match chain.process_block(b.block.clone(), opts) {
+					Ok(_) => {}
+					Err(e) => {
+						run.violation(
+							&format!("{};valid_block_refused;{}", sig, short_err(&e)),
+							&format!("block {} at height {} of a fork leaving the chain at height 47 (head at {}) refused: {:?}", b.hash, b.block.header.height, trunk.len(), e),
+							replay.clone(),
+						);
+						ok = false;
+					}
+				}
+			}
+			if ok {
+				match snapshot(&chain, &commits) {
+					Ok(sn) => {
+						let st = h.state(&sn.head.0);
+						if sn.head.0 != d_tip {
+							run.violation(&format!("{};final_head_not_unique_max", sig), &format!("final head {} (height {}) != tip of the heavier deep fork {}", sn.head.0, sn.head.1, d_tip), replay.clone());
+						} else if let Some(d) = compare_with_ref(&sn, &st) {
+							run.violation(&format!("{};final_state_vs_replay", sig), &d, replay.clone());
+						} else {
+							run.count("deep_world.deep_fork_orders_completed", 1);
+							run.eval(&format!("deep_world;{}", name), true);
+						}
+					}
+					Err(e) => run.violation(&format!("{};snapshot_failed", sig), &e, replay.clone()),
+				}
+			}
+			drop(chain);
+			let _ = std::fs::remove_dir_all(&dir);
+		}
+	}
 	if let Some((n0, d0)) = digests.first() {
 		for (n, d) in digests.iter().skip(1) {
 			if d != d0 {
@@ -864,6 +940,7 @@ fn main() {
 	});
 	drop(sc);
 	run.require("deep world (outputs across two bitmap chunks): delivery orders completed", run.counter("deep_world.orders_completed"), 4);
+	run.require("deep world: fork leaving the chain 60 blocks below the head followed", run.counter("deep_world.deep_fork_orders_completed"), 2);
 	// cross-order comparison per tree (digests come from different worker processes)
 	let mut by_tree: HashMap<u64, Vec<serde_json::Value>> = HashMap::new();
 	let mut trees: HashMap<u64, serde_json::Value> = HashMap::new();
